@@ -30,7 +30,8 @@ var (
 )
 
 var tagPool = []string{"_c16_n1", "_c16_n2", "_c16_n3", "_c16_n4", "_c16_n5", "_c16_n6"}
-var handlePool = []string{"h1", "h2", "h3"}
+// "root" is a legal handle name too: with no root logger configured it stands for the built-in one
+var handlePool = []string{"h1", "h2", "root", "h3"}
 
 var opNames = []string{"RefreshA", "RefreshB", "RefreshInvalidEarly", "RefreshInvalidLate", "Destroy", "LogTag", "WriteHandle", "RegisterTagNew", "RegisterTagExisting", "GetLoggerExisting", "GetLoggerNew"}
 
@@ -80,7 +81,9 @@ func validCfg(kind string) map[string]string {
 	}
 	set("lt", "_c16_*", level, "rtag")
 	for _, h := range handlePool {
-		set(h, "_c16h_"+h, "", "r"+h)
+		if h != "root" { // the valid configurations configure no root logger
+			set(h, "_c16h_"+h, "", "r"+h)
+		}
 	}
 	return m
 }
